@@ -165,7 +165,7 @@ Definition send_message (m : wmsg) : bytes := frame nsqd_frameTypeMessage (encod
      first 4 = int32 frame type, rest = data. *)
 Inductive rstate :=
 | RHdr (acc : bytes)                  (* fewer than 4 size bytes so far *)
-| RBody (need : Z) (acc : bytes)      (* need >= 1 more payload bytes *)
+| RBody (need : Z) (racc : bytes)     (* need >= 1 more payload bytes; racc = those read so far, reversed *)
 | RBad.
 
 Definition rinit : rstate := RHdr [].
@@ -185,9 +185,9 @@ Definition rstep (st : rstate) (b : N) : rstate * list (Z * bytes) :=
         else if size =? 0 then finish_payload []
         else (RBody size [], [])
       else (RHdr acc', [])
-  | RBody need acc =>
-      let acc' := acc ++ [b] in
-      if need <=? 1 then finish_payload acc' else (RBody (need - 1) acc', [])
+  | RBody need racc =>
+      let racc' := b :: racc in
+      if need <=? 1 then finish_payload (rev racc') else (RBody (need - 1) racc', [])
   end.
 
 Fixpoint rrun (st : rstate) (s : bytes) : rstate * list (Z * bytes) :=
